@@ -389,7 +389,7 @@ func typeKey(t types.Type) string {
 	case *types.Named:
 		o := u.Origin().Obj()
 		if o.Pkg() != nil {
-			return o.Pkg().Name() + "." + o.Name()
+			return o.Pkg().Name() + "." + canonStructName(u.Origin(), o)
 		}
 		return o.Name()
 	case *types.Pointer:
@@ -410,6 +410,33 @@ func typeKey(t types.Type) string {
 		return "iface"
 	}
 	return sanitize(types.TypeString(t, qualifier))
+}
+
+// canonStructName: named struct types declared as "type B A" share A's underlying struct and convert freely into each
+// other (also through pointers); they share one heap, named after the alphabetically first of them.
+var canonCache = map[*types.Struct]string{}
+
+func canonStructName(n *types.Named, o *types.TypeName) string {
+	st, ok := n.Underlying().(*types.Struct)
+	if !ok || n.TypeParams().Len() > 0 {
+		return o.Name()
+	}
+	if c, ok := canonCache[st]; ok {
+		return c
+	}
+	best := o.Name()
+	sc := o.Pkg().Scope()
+	for _, name := range sc.Names() {
+		if tn, ok := sc.Lookup(name).(*types.TypeName); ok && !tn.IsAlias() {
+			if nn, ok := tn.Type().(*types.Named); ok && nn.TypeParams().Len() == 0 {
+				if s2, ok := nn.Underlying().(*types.Struct); ok && s2 == st && name < best {
+					best = name
+				}
+			}
+		}
+	}
+	canonCache[st] = best
+	return best
 }
 
 func sanitize(s string) string {
